@@ -1,0 +1,224 @@
+/*
+ * Verification hook: child module of `protocol` (feature `verif` only).  Read-only views of the
+ * engine's private state plus the single mutator the harness needs (`set_next_packet_id`).
+ * Add-only; not referenced by the rest of the crate.
+ */
+
+use super::*;
+
+/// Property-relevant view of one tracked operation.
+#[derive(Clone, Debug, PartialEq, Eq, Hash, PartialOrd, Ord)]
+pub struct OpView {
+    pub id: u64,
+    /// MQTT control packet type number of the base packet
+    pub packet_type: u8,
+    /// qos of a publish (0 otherwise)
+    pub qos: u8,
+    pub dup: bool,
+    /// packet id bound to the operation
+    pub bound_packet_id: Option<u16>,
+    /// packet id field inside the packet itself (0 when not applicable)
+    pub packet_packet_id: u16,
+    pub has_pubrel: bool,
+    /// user operation (has a completion handler) vs internally generated
+    pub user: bool,
+    pub slow_start_ack_value: u32,
+    pub interruption_count: u32,
+    /// `now - ping_extension_base` in ms (None if unset)
+    pub ping_extension_age_ms: Option<i128>,
+    pub ack_timeout: Option<Duration>,
+}
+
+#[derive(Clone, Debug, Default, PartialEq, Eq, Hash, PartialOrd, Ord)]
+pub struct VSettings {
+    pub maximum_qos: u8,
+    pub session_expiry_interval: u32,
+    pub receive_maximum_from_server: u16,
+    pub maximum_packet_size_to_server: u32,
+    pub topic_alias_maximum_to_server: u16,
+    pub server_keep_alive: u16,
+    pub retain_available: bool,
+    pub wildcard_subscriptions_available: bool,
+    pub subscription_identifiers_available: bool,
+    pub shared_subscriptions_available: bool,
+    pub rejoined_session: bool,
+    pub client_id: String,
+}
+
+pub fn settings_view(settings: &NegotiatedSettings) -> VSettings {
+    VSettings {
+        maximum_qos: settings.maximum_qos as u8,
+        session_expiry_interval: settings.session_expiry_interval,
+        receive_maximum_from_server: settings.receive_maximum_from_server,
+        maximum_packet_size_to_server: settings.maximum_packet_size_to_server,
+        topic_alias_maximum_to_server: settings.topic_alias_maximum_to_server,
+        server_keep_alive: settings.server_keep_alive,
+        retain_available: settings.retain_available,
+        wildcard_subscriptions_available: settings.wildcard_subscriptions_available,
+        subscription_identifiers_available: settings.subscription_identifiers_available,
+        shared_subscriptions_available: settings.shared_subscriptions_available,
+        rejoined_session: settings.rejoined_session,
+        client_id: settings.client_id.clone(),
+    }
+}
+
+#[derive(Clone, Debug, Default, PartialEq, Eq, Hash)]
+pub struct Snapshot {
+    /// 0 Disconnected, 1 PendingConnack, 2 Connected, 3 PendingDisconnect, 4 Halted
+    pub state: u8,
+    pub pending_write_completion: bool,
+    /// sorted by id
+    pub operations: Vec<OpView>,
+    pub user_queue: Vec<u64>,
+    pub resubmit_queue: Vec<u64>,
+    pub high_priority_queue: Vec<u64>,
+    pub current_operation: Option<u64>,
+    /// sorted
+    pub inbound_qos2: Vec<u16>,
+    /// sorted (packet id, operation id)
+    pub allocated_packet_ids: Vec<(u16, u64)>,
+    pub pending_publish: Vec<(u16, u64)>,
+    pub pending_non_publish: Vec<(u16, u64)>,
+    pub pending_write_completion_operations: Vec<u64>,
+    /// sorted (deadline - now in ms, operation id)
+    pub ack_timeouts: Vec<(i128, u64)>,
+    pub next_operation_id: u64,
+    pub next_packet_id: u16,
+    pub has_connected_successfully: bool,
+    /// timers as (deadline - now) in ms
+    pub next_ping_in_ms: Option<i128>,
+    pub ping_timeout_in_ms: Option<i128>,
+    pub connack_timeout_in_ms: Option<i128>,
+    pub slow_start_ack_count: u32,
+    pub settings: Option<VSettings>,
+}
+
+fn state_code(state: ProtocolStateType) -> u8 {
+    match state {
+        ProtocolStateType::Disconnected => 0,
+        ProtocolStateType::PendingConnack => 1,
+        ProtocolStateType::Connected => 2,
+        ProtocolStateType::PendingDisconnect => 3,
+        ProtocolStateType::Halted => 4,
+    }
+}
+
+fn packet_type_number(packet: &MqttPacket) -> u8 {
+    match packet {
+        MqttPacket::Connect(_) => 1,
+        MqttPacket::Connack(_) => 2,
+        MqttPacket::Publish(_) => 3,
+        MqttPacket::Puback(_) => 4,
+        MqttPacket::Pubrec(_) => 5,
+        MqttPacket::Pubrel(_) => 6,
+        MqttPacket::Pubcomp(_) => 7,
+        MqttPacket::Subscribe(_) => 8,
+        MqttPacket::Suback(_) => 9,
+        MqttPacket::Unsubscribe(_) => 10,
+        MqttPacket::Unsuback(_) => 11,
+        MqttPacket::Pingreq(_) => 12,
+        MqttPacket::Pingresp(_) => 13,
+        MqttPacket::Disconnect(_) => 14,
+        MqttPacket::Auth(_) => 15,
+    }
+}
+
+fn rel_ms(timepoint: &Instant, now: &Instant) -> i128 {
+    if timepoint >= now {
+        (*timepoint - *now).as_millis() as i128
+    } else {
+        -((*now - *timepoint).as_millis() as i128)
+    }
+}
+
+pub(crate) fn state_of(state: &ProtocolState) -> u8 {
+    state_code(state.state)
+}
+
+pub(crate) fn snapshot(state: &ProtocolState, now: &Instant) -> Snapshot {
+    let mut operations: Vec<OpView> = state.operations.values().map(|operation| {
+        let (qos, dup, packet_packet_id) =
+            match &*operation.packet {
+                MqttPacket::Publish(publish) => (publish.qos as u8, publish.duplicate, publish.packet_id),
+                MqttPacket::Subscribe(subscribe) => (0, false, subscribe.packet_id),
+                MqttPacket::Unsubscribe(unsubscribe) => (0, false, unsubscribe.packet_id),
+                MqttPacket::Puback(ack) => (0, false, ack.packet_id),
+                MqttPacket::Pubrec(ack) => (0, false, ack.packet_id),
+                MqttPacket::Pubrel(ack) => (0, false, ack.packet_id),
+                MqttPacket::Pubcomp(ack) => (0, false, ack.packet_id),
+                _ => (0, false, 0),
+            };
+
+        OpView {
+            id: operation.id,
+            packet_type: packet_type_number(&operation.packet),
+            qos,
+            dup,
+            bound_packet_id: operation.packet_id,
+            packet_packet_id,
+            has_pubrel: operation.qos2_pubrel.is_some(),
+            user: operation.options.is_some(),
+            slow_start_ack_value: operation.slow_start_ack_value,
+            interruption_count: operation.interruption_count,
+            ping_extension_age_ms: operation.ping_extension_base_timepoint.as_ref().map(|base| rel_ms(now, base)),
+            ack_timeout: state.get_operation_timeout_duration(operation),
+        }
+    }).collect();
+    operations.sort();
+
+    let mut inbound_qos2: Vec<u16> = state.qos2_incomplete_incoming_publishes.iter().copied().collect();
+    inbound_qos2.sort();
+
+    let sorted_pairs = |map: &HashMap<u16, u64>| {
+        let mut pairs: Vec<(u16, u64)> = map.iter().map(|(k, v)| (*k, *v)).collect();
+        pairs.sort();
+        pairs
+    };
+
+    let mut ack_timeouts: Vec<(i128, u64)> = state.operation_ack_timeouts.iter().map(|record| (rel_ms(&record.0.timeout, now), record.0.id)).collect();
+    ack_timeouts.sort();
+
+    Snapshot {
+        state: state_code(state.state),
+        pending_write_completion: state.pending_write_completion,
+        operations,
+        user_queue: state.user_operation_queue.iter().copied().collect(),
+        resubmit_queue: state.resubmit_operation_queue.iter().copied().collect(),
+        high_priority_queue: state.high_priority_operation_queue.iter().copied().collect(),
+        current_operation: state.current_operation,
+        inbound_qos2,
+        allocated_packet_ids: sorted_pairs(&state.allocated_packet_ids),
+        pending_publish: sorted_pairs(&state.pending_publish_operations),
+        pending_non_publish: sorted_pairs(&state.pending_non_publish_operations),
+        pending_write_completion_operations: state.pending_write_completion_operations.iter().copied().collect(),
+        ack_timeouts,
+        next_operation_id: state.next_operation_id,
+        next_packet_id: state.next_packet_id,
+        has_connected_successfully: state.has_connected_successfully,
+        next_ping_in_ms: state.next_ping_timepoint.as_ref().map(|t| rel_ms(t, now)),
+        ping_timeout_in_ms: state.ping_timeout_timepoint.as_ref().map(|t| rel_ms(t, now)),
+        connack_timeout_in_ms: state.connack_timeout_timepoint.as_ref().map(|t| rel_ms(t, now)),
+        slow_start_ack_count: state.slow_start_ack_count,
+        settings: state.current_settings.as_ref().map(settings_view),
+    }
+}
+
+/// Start the packet id allocator at an arbitrary point of its cycle (the wrap cannot be reached
+/// by submitting 65535 operations per explored path).
+pub(crate) fn set_next_packet_id(state: &mut ProtocolState, value: u16) {
+    state.next_packet_id = value;
+}
+
+/// The in-place sort applied to the intake queues at CONNACK.
+pub(crate) fn sort_deque(operations: &mut VecDeque<u64>) {
+    sort_operation_deque(operations);
+}
+
+/// The merge of CONNECT options, CONNACK and defaults.
+pub(crate) fn negotiate(config: &ProtocolStateConfig, connack: &ConnackPacket, existing: &Option<NegotiatedSettings>) -> NegotiatedSettings {
+    build_negotiated_settings(config, connack, existing)
+}
+
+pub(crate) fn passes_offline_policy(packet: &MqttPacket, policy: &OfflineQueuePolicy) -> bool {
+    does_packet_pass_offline_queue_policy(packet, policy)
+}
